@@ -1,5 +1,225 @@
 """Node-side handlers for identity events (C08)."""
+import copy
+import pickle
+
+from . import canon as C
 
 
 class C08Mixin(object):
-    pass
+
+    def _report(self, obj):
+        """Identity (registry index) and the identifying attributes of an atom."""
+        cls = type(obj).__name__
+        if cls not in ("Element", "Isotope", "Ion"):
+            return {"notatom": cls}
+        k = C.atom_key(obj)
+        out = {"key": list(k), "reg": self.ident(obj), "cls": cls}
+        for n in ("number", "symbol", "name", "isotope", "charge"):
+            try:
+                v = getattr(obj, n)
+                out[n] = v if isinstance(v, (int, str)) and not isinstance(v, bool) else C.canon(v)
+            except Exception as e:  # noqa: BLE001
+                out[n] = ["E", type(e).__name__]
+        return out
+
+    def _fingerprint(self):
+        """Sizes of the identity caches and of the table registry."""
+        core = self.core
+        fp = {}
+        for name, t in core.PRIVATE_TABLES.items():
+            ne = len(t._element)
+            ni = nq = 0
+            for el in t._element.values():
+                ni += len(el._isotopes)
+                nq += len(el.ion.ionset)
+                for iso in el._isotopes.values():
+                    nq += len(iso.ion.ionset)
+            fp[name] = [ne, ni, nq]
+        return fp
+
+    def _lookup(self, tbl, route, arg):
+        t = self.table(tbl)
+        if route == "Z":
+            return t[arg]
+        if route == "symbol":
+            return t.symbol(arg)
+        if route == "attr":
+            return getattr(t, arg)
+        if route == "name":
+            return t.name(arg)
+        if route == "isostr":
+            return t.isotope(arg)
+        if route == "modattr":
+            return getattr(self.pt, arg)
+        if route == "iso":
+            return t[arg[0]][arg[1]]
+        if route == "ion":
+            return t[arg[0]].ion[arg[1]]
+        if route == "isoion":
+            return t[arg[0]][arg[1]].ion[arg[2]]
+        if route == "ionattr":       # attribute delegation must reach the same element
+            a = t[arg[0]].ion[arg[1]]
+            return a.element
+        if route == "isoel":
+            return t[arg[0]][arg[1]].element
+        if route == "iterpos":
+            if arg[0] is None:
+                return list(t)[arg[1]]
+            return list(t[arg[0]])[arg[1]]
+        if route == "elements_attr":
+            return getattr(self.pt.elements, arg)
+        raise ValueError(route)
+
+    def ev_lookup(self, tbl, route, arg, denotes=None):
+        return self._report(self._lookup(tbl, route, arg))
+
+    def ev_badkey(self, tbl, route, arg):
+        before = self._fingerprint()
+        try:
+            obj = self._lookup(tbl, route, arg)
+        except Exception as e:  # noqa: BLE001
+            after = self._fingerprint()
+            return {"raised": type(e).__name__, "caches_unchanged": before == after}
+        after = self._fingerprint()
+        rep = self._report(obj)
+        rep["raised"] = None
+        rep["caches_unchanged"] = before == after
+        return rep
+
+    def ev_roundtrip(self, tbl, ref, how):
+        a = self.atom(tbl, ref)
+        if how == "copy":
+            b = copy.copy(a)
+        elif how == "deepcopy":
+            b = copy.deepcopy(a)
+        elif how.startswith("pickle:"):
+            b = pickle.loads(pickle.dumps(a, int(how.split(":")[1])))
+        else:
+            raise ValueError(how)
+        rep = self._report(b)
+        rep["same"] = b is a
+        rep["orig"] = self.ident(a)
+        return rep
+
+    def ev_container(self, tbl, refs, how):
+        atoms = [self.atom(tbl, r) for r in refs]
+        box = {"l": atoms, "d": {a: i for i, a in enumerate(atoms)}, "t": tuple(atoms[:2])}
+        if how == "deepcopy":
+            out = copy.deepcopy(box)
+        else:
+            out = pickle.loads(pickle.dumps(box, int(how.split(":")[1])))
+        same = all(x is y for x, y in zip(out["l"], atoms)) and len(out["l"]) == len(atoms)
+        same = same and all(k is a for k, a in zip(out["d"], box["d"])) and len(out["d"]) == len(box["d"])
+        same = same and all(x is y for x, y in zip(out["t"], box["t"]))
+        return {"same": same, "n": len(atoms), "nd": len(out["d"])}
+
+    def ev_change_to(self, src, ref, dst):
+        a = self.atom(src, ref)
+        b = self.core.change_table(a, self.table(dst))
+        return self._report(b)
+
+    def ev_iter(self, tbl, Z):
+        t = self.table(tbl)
+        if Z is None:
+            items = list(t)
+            nums = [e.number for e in items]
+            regs = [self.ident(e) for e in items]
+            same = all(t[e.number] is e for e in items)
+        else:
+            el = t[Z]
+            items = list(el)
+            nums = [i.isotope for i in items]
+            regs = [self.ident(i) for i in items]
+            same = all(el[i.isotope] is i for i in items) and nums == list(el.isotopes)
+        return {"nums": nums, "same": same, "distinct": len(set(regs)) == len(regs)}
+
+    def ev_add_isotope(self, tbl, Z, A):
+        el = self.table(tbl)[Z]
+        iso = el.add_isotope(A)
+        return self._report(iso)
+
+    def ev_load_bytes(self, data, expect_tbl=None, expect_ref=None):
+        obj = pickle.loads(data)
+        if type(obj).__name__ == "Formula":
+            tbls = sorted({C.atom_key(a)[0] for a in obj.atoms})
+            ok = all(self._is_mine(a) for a in obj.atoms)
+            return {"formula_tables": tbls, "all_mine": ok}
+        if isinstance(obj, (list, tuple, dict)):
+            items = list(obj)
+            return {"container": [self._report(x) for x in items], "mine": all(self._is_mine(x) for x in items)}
+        rep = self._report(obj)
+        rep["mine"] = self._is_mine(obj)
+        return rep
+
+    def ev_dump_container(self, msgid, tbl, refs, proto):
+        atoms = [self.atom(tbl, r) for r in refs]
+        return ["B", pickle.dumps(atoms, proto)]
+
+    def ev_fingerprint(self):
+        return self._fingerprint()
+
+    # ------------------------------------------------------------------ sweep
+    def ev_sweep(self, tbl, zs=None, deep=False):
+        """Invariant sweep inside the node: every atom of the table (or of the listed
+        elements) through every route resolves to one object with the right attributes."""
+        t = self.table(tbl)
+        pt = self.pt
+        bad = []
+        n = 0
+
+        def chk(cond, what):
+            nonlocal n
+            n += 1
+            if not cond and len(bad) < 8:
+                bad.append(what)
+
+        els = list(t)
+        nums = [e.number for e in els]
+        chk(nums == sorted(set(nums)) and len(nums) == len(t._element), "iter(T) not strictly increasing")
+        if zs is not None:
+            els = [t[z] for z in zs]
+        tname = tbl
+        for el in els:
+            Z, sym, name = el.number, el.symbol, el.name
+            chk(t[Z] is el, "T[%d]" % Z)
+            chk(t.symbol(sym) is el, "symbol(%s)" % sym)
+            chk(getattr(t, sym) is el, "attr %s" % sym)
+            chk(t.name(name) is el, "name(%s)" % name)
+            chk(t.isotope(sym) is el, "isotope(%s)" % sym)
+            chk(C.atom_key(el) == (tname, Z, 0, 0), "key of %s" % sym)
+            if tbl == "public":
+                chk(getattr(pt, sym) is el, "pt.%s" % sym)
+                chk(getattr(pt, name) is el, "pt.%s" % name)
+            chk(pickle.loads(pickle.dumps(el, 2)) is el, "pickle %s" % sym)
+            isos = list(el)
+            As = [i.isotope for i in isos]
+            chk(As == sorted(set(As)) and As == list(el.isotopes), "iter(%s)" % sym)
+            for iso in isos:
+                A = iso.isotope
+                chk(el[A] is iso, "%s[%d]" % (sym, A))
+                chk(t.isotope("%d-%s" % (A, sym)) is iso, "isotope(%d-%s)" % (A, sym))
+                chk(iso.element is el and iso.number == Z, "%s[%d].element" % (sym, A))
+                if deep:
+                    chk(pickle.loads(pickle.dumps(iso, 4)) is iso, "pickle %s[%d]" % (sym, A))
+                    for q in el.ions:
+                        ion = iso.ion[q]
+                        chk(iso.ion[q] is ion and ion.charge == q and ion.element is iso,
+                            "%s[%d].ion[%d]" % (sym, A, q))
+                        chk(pickle.loads(pickle.dumps(ion, 4)) is ion, "pickle %s[%d].ion[%d]" % (sym, A, q))
+            for q in el.ions:
+                ion = el.ion[q]
+                chk(el.ion[q] is ion and ion.charge == q and ion.element is el and ion.number == Z,
+                    "%s.ion[%d]" % (sym, q))
+                chk(pickle.loads(pickle.dumps(ion, 2)) is ion, "pickle %s.ion[%d]" % (sym, q))
+                chk(copy.deepcopy(ion) is ion, "deepcopy %s.ion[%d]" % (sym, q))
+            if isos and el.ions:
+                iso, q = isos[len(isos) // 2], el.ions[0]
+                ii = iso.ion[q]
+                chk(iso.ion[q] is ii and ii.charge == q and ii.isotope == iso.isotope, "%s isoion" % sym)
+                chk(pickle.loads(pickle.dumps(ii, 4)) is ii, "pickle isoion %s" % sym)
+                chk(copy.deepcopy(ii) is ii, "deepcopy isoion %s" % sym)
+        # D and T aliases
+        chk(t.D is t.H[2] and t.T is t.H[3] and t.symbol("D") is t.D and t.isotope("T") is t.T
+            and t.name("deuterium") is t.D and t.name("tritium") is t.T, "D/T aliases")
+        chk(t.D.symbol == "D" and t.D.name == "deuterium" and t.D.isotope == 2 and t.D.number == 1, "D attrs")
+        return {"checked": n, "bad": bad}
